@@ -223,12 +223,109 @@ def c05e(prog, rep):
               where="%s:%d" % (sp.file, sp.line), instance={"chevrons_classified_after_parsing": True, "generic_level_reads": len(reads), "conditional_on_starting_at_<": looks})
 
 
+def c05f(prog, rep):
+    """C05.f — a line gets its level when it is finished (C05.d), from the contexts that are on the stack at that moment.  The members
+    of a section are collected by parse_structures() under a context that adds a level; the last member need not end in `;`, so
+    it is still open when parse_structures() returns.  It has to be finished before that context is popped: between every call of
+    parse_structures() and the pop of the level-adding context it ran under (or the end of the closure handed to do_with_context),
+    finish_logical_line() is called.  Contexts of Level(0) are exempt (finishing after the pop gives the same level)."""
+    R = "C05.f"
+    PAR = "pasfmt_core::defaults::parser::"
+    P = PAR + "InternalDelphiLogicalLineParser::"
+    PS, FIN, DWC = P + "parse_structures", P + "finish_logical_line", P + "do_with_context"
+    POP, PUSH = PAR + "ParserContexts::pop", PAR + "ParserContexts::push"
+
+    def tgt(c):
+        return norm(c.t.get("resolved") or c.target or c.callee or "")
+
+    def level_of_context(body, op, depth=0):
+        """the constant n of `level: ParserContextLevel::Level(n)` of the context value in `op`, or None if it cannot be read off"""
+        if op["k"] not in ("copy", "move"):
+            return None
+        vals = set()
+        for o in Origins(body).of_operand(op):
+            if o[0] == "call" and depth < 2:
+                cb = prog.body(norm(o[2]))
+                if cb is None:
+                    return None
+                for bb, i, st in cb.stmts():
+                    if st["k"] == "assign" and st["dst"]["l"] == 0 and not st["dst"]["p"]:
+                        v = level_of_context(cb, st["rv"].get("op", {"k": "?"}), depth + 1) if st["rv"]["k"] == "use" else _agg_level(cb, st["rv"])
+                        vals.add(v)
+                continue
+            if o[0] != "agg":
+                return None
+            st = body.blocks[o[1]]["stmts"][o[2]] if isinstance(o[2], int) else None
+            if st is None:
+                return None
+            vals.add(_agg_level(body, st["rv"]))
+        return vals.pop() if len(vals) == 1 else None
+
+    def _agg_level(body, rv):
+        if rv.get("k") != "aggregate" or not norm(rv.get("adt", "")).endswith("ParserContext") or "level" not in rv.get("fields", []):
+            return None
+        lop = rv["ops"][rv["fields"].index("level")]
+        if lop["k"] == "const":
+            return None
+        for o in Origins(body).of_operand(lop):
+            if o[0] == "agg" and isinstance(o[2], int):
+                lr = body.blocks[o[1]]["stmts"][o[2]]["rv"]
+                if lr.get("variant") == "Level" and len(lr["ops"]) == 1 and lr["ops"][0]["k"] == "const" and "int" in lr["ops"][0]:
+                    return lr["ops"][0]["int"]
+        return None
+    n = 0
+    for c in prog.who_calls(PS):
+        b = c.body
+        if not b.crate.startswith("pasfmt"):
+            continue
+        fins = {x.bb for x in b.calls() if tgt(x) == FIN}
+        pops = [x for x in b.calls() if tgt(x) == POP]
+        pushes = [x for x in b.calls() if tgt(x) == PUSH]
+        first = [p for p in pops if p.bb in b.reach_from(c.bb) and b.can_reach_avoiding(c.bb, {p.bb}, {q.bb for q in pops if q is not p})]
+        for p in first:
+            # the push this pop undoes: stack discipline over the pushes / pops that dominate it
+            ev = sorted([x for x in pushes + pops if x is not p and b.dominates(x.bb, p.bb)], key=lambda x: len(b.dom.get(x.bb, ())))
+            st = []
+            for x in ev:
+                if tgt(x) == PUSH:
+                    st.append(x)
+                elif st:
+                    st.pop()
+            lvl = level_of_context(b, st[-1].args[1]) if st else None
+            n += 1
+            if lvl == 0:
+                rep.ok(R, {"site": short(b.npath), "pop_of_level": 0})
+                continue
+            ok = not b.can_reach_avoiding(c.bb, {p.bb}, fins)
+            rep.check(ok, R, "members-finished-before-their-context-is-popped:%s" % short(b.npath),
+                      "%s pops the context (level %s) under which parse_structures() collected members without finishing the line first: a last member without `;` is finished later, under the "
+                      "enclosing contexts only, and is printed one level too shallow" % (short(b.npath), "+%s" % lvl if lvl is not None else "unknown"), where=p.where(),
+                      instance={"site": short(b.npath), "level": lvl})
+        if b.kind == "Closure" and not first:
+            # the action of do_with_context(context, action): the context is popped when the closure returns
+            parent = prog.body(b.npath.rsplit("::{closure", 1)[0])
+            lvl = None
+            for d in (parent.calls() if parent is not None else []):
+                if tgt(d) == DWC and len(d.args) >= 3 and d.args[2]["k"] in ("copy", "move") and norm(parent.locals[d.args[2]["place"]["l"]].get("closure") or "") == b.npath:
+                    lvl = level_of_context(parent, d.args[1])
+            n += 1
+            if lvl == 0:
+                rep.ok(R, {"site": short(b.npath), "pop_of_level": 0})
+                continue
+            ok = not b.can_reach_avoiding(c.bb, set(b.return_blocks()), fins)
+            rep.check(ok, R, "members-finished-before-their-context-is-popped:%s" % short(b.npath),
+                      "%s (the action of do_with_context, level %s) returns after parse_structures() without finishing the line: the context is popped with the last member still open"
+                      % (short(b.npath), lvl if lvl is not None else "given by the caller"), where=c.where(), instance={"site": short(b.npath), "level": lvl})
+    rep.floor(R, "parse_structures() calls followed by the pop of their context", n, 3)
+
+
 def check_c05(prog, rep, tier, cfg):
     c05e(prog, rep)
     c05a(prog, rep)
     c05b(prog, rep)
     c05c(prog, rep)
     c05d(prog, rep)
+    c05f(prog, rep)
 
 
 PROPERTIES = {
